@@ -69,6 +69,10 @@ def _alarm(signum, frame):
     raise Hang()
 
 
+HANGS_SEEN = [0]
+HANG_KINDS = {}
+
+
 def guarded(fn, *a):
     """Call fn in this thread; a wait that should not happen is broken by SIGALRM."""
     old = signal.signal(signal.SIGALRM, _alarm)
@@ -89,11 +93,29 @@ def do_op(utils, sem, o):
         if blocking and sem.current_count() == 0:
             return 'B'
         try:
-            k = guarded(sem.acquire, o[1], True) if blocking else sem.acquire(o[1], False)
+            # non-blocking is requested with False or with the equally valid falsy 0 (as the plain
+            # counting semaphore and threading.Semaphore accept it), alternating by tag
+            nb = 0 if o[1] % 2 else False
+            if blocking:
+                k = guarded(sem.acquire, o[1], True)
+            elif sem.current_count() == 0:
+                # must raise at once; a buggy version would WAIT here: bounded by the alarm.  Once the
+                # same kind of call (same flag value, zero capacity) has waited three times it is
+                # taken to wait again (3 s each would make the search oracle crawl).
+                if HANG_KINDS.get(repr(nb), 0) >= 3:
+                    return 'HANG'
+                try:
+                    k = guarded(sem.acquire, o[1], nb)
+                except Hang:
+                    HANG_KINDS[repr(nb)] = HANG_KINDS.get(repr(nb), 0) + 1
+                    raise
+            else:
+                k = sem.acquire(o[1], nb)
             return 'k' + hx(k) if isinstance(k, int) else f'k?{k!r}'
         except utils.NoResourcesAvailable:
             return 'N'
         except Hang:
+            HANGS_SEEN[0] += 1
             return 'HANG'
         except Exception as e:       # noqa: an exception the interface does not document
             return 'E' + type(e).__name__
@@ -151,6 +173,8 @@ def dump_state(sem):
 def run_impl_S(case):
     utils = impl()
     cap, ops = case
+    if HANGS_SEEN[0] >= 3:
+        return 'SKIPPED'       # three operations already waited where none may: reported; the stream ends here
     sem = utils.SlidingWindowSemaphore(cap)
     g = Ghost()
     out = []
@@ -168,6 +192,8 @@ NA_SEEN = []
 def canon_S(i, m):
     """When the implementation's private bookkeeping could not be read ('NA'), the
     state component is left out of the comparison on both sides."""
+    if i == 'SKIPPED':
+        return i, i
     pi = i.split(' | ')
     if len(pi) >= 3 and pi[2] == 'NA':
         pm = m.split(' | ')
@@ -201,7 +227,11 @@ def oracle(cap, ops, second_pass=True):
         results.append(r)
         where = f'op {i} ({op_str(o)}) of cap={cap} [{" ".join(op_str(x) for x in ops)}]'
         if r == 'HANG':
-            fail('acquire-waits-with-capacity', f'{where}: blocking acquire waited although current_count()={before}')
+            if o[0] == 'a':
+                fail('nonblocking-acquire-waits', f'{where}: a NON-blocking acquire (flag {0 if o[1] % 2 else False!r}) waited at '
+                                                  f'current_count()={before} instead of raising NoResourcesAvailable')
+            else:
+                fail('acquire-waits-with-capacity', f'{where}: blocking acquire waited although current_count()={before}')
             return fails
         if o[0] in 'ab':
             if before == 0 and r not in ('N', 'B'):
